@@ -159,6 +159,31 @@ def handle (j : Json) : Json :=
       ("sgn", toJson (vecToBits F.sgn)), ("perm", toJson ((List.finRange k).map fun jj => (perm jj).val)),
       ("transform", toJson (matToBits tf)), ("inverse", toJson (matToBits (rotInverse F tf))),
       ("uses_inverse", Gen.rotatorSingleUsesInverse (getInt j "power"))]
+  | "whitener" =>
+    -- Whitener: centred X (n×p); oracle decomposition of its covariance V (p×p), s; alpha; patterns P (p×k); new data Xn (m×p)
+    let n := getNat j "n"; let p := getNat j "p"; let k := getNat j "k"; let m := getNat j "m"
+    let X := matOfBits n p (getStrArr j "X"); let V := matOfBits p p (getStrArr j "V")
+    let sA := (getStrArr j "s").map bitsToFloat
+    let s : Fin p → Float := fun i => sA[i.val]!
+    let alpha := bitsToFloat (getStr j "alpha")
+    let smax := (List.finRange p).foldl (fun a i => if s i > a then s i else a) 0.0
+    let eps : Float := 2.220446049250313e-16
+    let keep : Fin p → Bool := fun i => if Gen.fracPowerCutoffIsRelative then s i > eps * smax else s i > eps
+    let F : WhitenFit p Float := whitenFit V s keep alpha
+    let P := matOfBits p k (getStrArr j "P"); let Xn := matOfBits m p (getStrArr j "Xn")
+    let Z := whitenTransform F Xn
+    let C : Mat p p Float := whitenCov (ρ := Float) X
+    Json.mkObj [("status", "ok"), ("cov", toJson (matToBits C)), ("T", toJson (matToBits F.T)), ("Tinv", toJson (matToBits F.Tinv)),
+      ("transform", toJson (matToBits Z)), ("inverse", toJson (matToBits (whitenInverseData F Z))),
+      ("tcomps", toJson (matToBits (whitenTransformComps F P))), ("icomps", toJson (matToBits (whitenInverseComps F P))),
+      ("kept", toJson ((List.finRange p).filter (fun i => keep i)).length)]
+  | "pca" =>
+    let p := getNat j "p"; let k := getNat j "k"; let m := getNat j "m"; let r := getNat j "r"
+    let V := matOfBits p k (getStrArr j "V"); let Xn := matOfBits m p (getStrArr j "Xn"); let P := matOfBits p r (getStrArr j "P")
+    let Z := pcaTransform V Xn
+    let Q := pcaTransformComps V P
+    Json.mkObj [("status", "ok"), ("transform", toJson (matToBits Z)), ("inverse", toJson (matToBits (pcaInverseData V Z))),
+      ("tcomps", toJson (matToBits Q)), ("icomps", toJson (matToBits (pcaInverseComps V Q)))]
   | "scaler" =>
     let f : ScalerFlags := ⟨getBool j "with_center", getBool j "with_std", getBool j "with_coslat"⟩
     let P : ScalerParams Float := ⟨bitsToFloat (getStr j "mean"), bitsToFloat (getStr j "std"), bitsToFloat (getStr j "coslat"), bitsToFloat (getStr j "weights")⟩
